@@ -159,11 +159,13 @@ class WireSig:
             if tok is None and base in ("draco::DecoderBuffer::Advance", "draco::EncoderBuffer::Resize"):
                 tok = "BYTES"          # a raw window of the input is consumed / was written in place
             if tok is None:
-                if base.startswith(("draco::EncoderBuffer::", "draco::DecoderBuffer::")):
-                    continue
                 tgts = [t for t in self.F.targets(n) if "/draco/" in t.file]
                 if not tgts or not any(self.does_io(t) for t in tgts):
                     continue
+                if base.startswith(("draco::EncoderBuffer::", "draco::DecoderBuffer::")) and \
+                        base in W_PRIMS | R_PRIMS:
+                    continue        # the buffer primitives themselves; a private helper of a paired buffer
+                                    # method (size back-patching moved out of EndBitEncoding) is followed
                 if base in self_names and base not in self.inline:
                     others = [t for t in tgts if t.key != fn.key and t.base == base]
                     # delegation to an overload of the same name is inlined; true recursion is a token
